@@ -114,6 +114,7 @@ type Step struct {
 	SendDenom Denom
 	// relay details
 	AckSuccess bool // recv: status of the written acknowledgement; ack: content relayed
+	ExpectOK   bool // recv: the model's prediction (made before the transaction) that the receive succeeds
 }
 
 func (st *Step) allow(chain int, labels ...string) {
@@ -650,6 +651,9 @@ func (w *World) deliverRelay(st *Step, kind string, p *TPkt, msg sdk.Msg, sig in
 		for _, lg := range p.Legs {
 			st.allow(c, AcctLabel(lg.Sender))
 		}
+	}
+	if kind == "recv" {
+		st.ExpectOK = w.ExpectRecvSuccess(p)
 	}
 	st.Before = w.Banks()
 	st.Res = w.Deliver(c, sig, msg)
